@@ -126,6 +126,9 @@ struct EncWorld : World {
 		int framing = (int) r.below(5);
 		p.set("framing", framing);
 		p.set("mode", r.chance(1, 3) ? 1 : 0);       // 0 direct window, 1 mpt_array_push
+		// array mode only: a first message of this many bytes is pushed, taken and consumed through the C++ encode_array interface before the message proper
+		p.set("prelude", r.chance(1, 2) ? 0 : (r.chance(1, 2) ? r.range(1, 64) : r.range(64, 400)));
+		p.set("preflags", r.below(8));       // bit 0: push the first message as a two-fragment mpt::message, bit 1: compact (shift(0)) after consuming, bit 2: consume in two steps
 		p.set("win0", r.chance(1, 2) ? 0 : edgy(r, 300));
 		p.set("inc", r.chance(1, 2) ? r.range(1, 3) : r.range(1, 64)); // drain grant increment
 		p.set("mis", r.range(0, 15));
@@ -323,7 +326,43 @@ struct EncWorld : World {
 
 	void run_array(const Plan &p, int framing, const Bytes &msg, size_t inc, Bytes &frame, Log &log, Stats &st) {
 		encode_array arr(encoder_for(framing));
-		size_t pos = 0; bool finished = false;
+		size_t pos = 0; bool finished = false, compacted_midway = false;
+		// ---- an earlier message on the same array: encoded, taken through data(), consumed through shift()
+		size_t prelude = (size_t) std::min<int64_t>(std::max<int64_t>(p.get("prelude"), 0), 2000); unsigned pf = (unsigned) p.get("preflags");
+		if (prelude) {
+			Bytes first(prelude); for (size_t i = 0; i < prelude; ++i) first[i] = framing == ref::COMMAND ? (uint8_t) ('a' + i % 26) : (uint8_t) ((i * 37 + 11) % 251 + ((i % 9) ? 1 : 0) * 0 + ((i % 13) == 5 ? 0 : 1));
+			if (framing == ref::COMMAND) for (auto &b : first) if (!b) b = 'z';
+			Block src(prelude, 0); memcpy(src.p, first.data(), prelude);
+			bool ok = true;
+			if (pf & 1) {
+				// one message in two fragments
+				size_t cut = prelude / 2; struct iovec cont; cont.iov_base = src.p + cut; cont.iov_len = prelude - cut;
+				message m; m.base = src.p; m.used = cut; m.cont = &cont; m.clen = 1;
+				{ Sut s; SUT_GUARD_ABORT(ok = arr.push(m)); }
+				st.hit("op:PUSH_MESSAGE");
+			} else {
+				size_t off = 0; int guard = 0;
+				while (off < prelude && ++guard < 4096) { ssize_t r; { Sut s; SUT_GUARD_ABORT(r = arr.push(prelude - off, src.p + off)); } if (r < 0) { ok = false; break; } off += (size_t) r; }
+				if (off < prelude) ok = false;
+			}
+			if (!ok) fail("refused-valid", "%s: the first message of %zu bytes could not be pushed to an encode_array without any fault", ref::framing_name(framing), prelude);
+			ssize_t tr; { Sut s; SUT_GUARD_ABORT(tr = arr.push(0, 0)); }
+			if (tr < 0) fail("refused-valid", "%s: terminating the first message failed (%zd)", ref::framing_name(framing), tr);
+			span<const uint8_t> d; { Sut s; d = arr.data(); }
+			Bytes f1(d.begin(), d.end());
+			log.ev("PRELUDE %zu bytes%s -> frame of %zu bytes", prelude, (pf & 1) ? " as two fragments" : "", f1.size());
+			size_t z = 0; for (uint8_t b : f1) if (!b) ++z;
+			if (f1.empty() || f1.back() != 0 || z != 1) fail("frame-zero", "%s frame of the first message (%zu bytes) has %zu zero bytes", ref::framing_name(framing), f1.size(), z);
+			check_roundtrip(framing, first, f1, 0, "c-encoder (first message on the array)", log);
+			// consume it; what follows must encode as if the array were fresh
+			bool sh;
+			if ((pf & 4) && f1.size() > 1) { { Sut s; sh = arr.shift(f1.size() / 2) && arr.shift(f1.size() - f1.size() / 2); } }
+			else { Sut s; sh = arr.shift(f1.size()); }
+			if (!sh) fail("refused-valid", "consuming the finished frame of %zu bytes was refused", f1.size());
+			if (arr._state.done) fail("state-bounds", "after consuming the only finished frame %zu finished bytes remain", arr._state.done);
+			if ((pf & 2) && !(pf & 1)) { bool c; { Sut s; c = arr.shift(0); } log.ev("COMPACT -> %d", (int) c); st.hit("op:COMPACT"); }
+			st.hit("op:CONSUME");
+		}
 		auto push = [&](size_t k, uint64_t failn) -> ssize_t {
 			Block src(k, 0); if (k) memcpy(src.p, msg.data() + pos, k);
 			ssize_t r;
@@ -339,6 +378,17 @@ struct EncWorld : World {
 			st.state(4, framing, (fired ? 4 : 0) + (r < 0 ? 0 : r == 0 ? 1 : (size_t) r < k ? 2 : 3));
 			if (k && r > 0) pos += (size_t) r;
 			if (!k && r >= 0) finished = true;
+			if (prelude && (pf & 2) && k && r > 0 && !compacted_midway) {
+				// move the live part (finished data + open block) to the front while a message is in progress: nothing may change for the encoder
+				compacted_midway = true;
+				size_t live = arr._state.done + arr._state.scratch; buffer *b0 = arr._d._buf.instance(); Bytes before((const uint8_t *) (b0 + 1) + (b0->_used - live), (const uint8_t *) (b0 + 1) + b0->_used);
+				bool c; { Sut s; SUT_GUARD_ABORT(c = arr.shift(0)); }
+				buffer *b1 = arr._d._buf.instance(); size_t used1 = b1 ? b1->_used : 0;
+				log.ev("COMPACT (message in progress, %zu live bytes) -> %d used=%zu", live, (int) c, used1);
+				st.hit("op:COMPACT_MIDWAY");
+				if (arr._state.done + arr._state.scratch != live || used1 < live) fail("state-bounds", "compaction changed the encoder state: %zu live bytes before, done=%zu scratch=%zu used=%zu after", live, arr._state.done, arr._state.scratch, used1);
+				if (live && memcmp((const uint8_t *) (b1 + 1) + (used1 - live), before.data(), live)) fail("roundtrip", "compaction of the array changed the %zu bytes of the message in progress", live);
+			}
 			return r;
 		};
 		for (const Op &op : p.ops) {
@@ -359,10 +409,12 @@ struct EncWorld : World {
 			if (pos < msg.size()) push(msg.size() - pos, 0); else push(0, 0);
 		}
 		buffer *b = arr._d._buf.instance();
-		const uint8_t *base = b ? (const uint8_t *) (b + 1) : 0;
 		size_t done = arr._state.done;
-		if (!b || done > b->_used) fail("state-bounds", "finished size %zu beyond buffer", done);
+		if (!b || done + arr._state.scratch > b->_used) fail("state-bounds", "finished size %zu beyond buffer", done);
+		// the finished data sits in front of the open block at the end of the used area (consumed frames may precede it)
+		const uint8_t *base = (const uint8_t *) (b + 1) + (b->_used - done - arr._state.scratch);
 		frame.assign(base, base + done);
+		if (prelude) { span<const uint8_t> d; { Sut s; d = arr.data(); } if (d.size() != (long) done || (done && memcmp(d.begin(), base, done))) fail("state-bounds", "encode_array::data() does not describe the finished frame"); }
 	}
 };
 
